@@ -93,20 +93,23 @@ def spaces(tier, variant, seed):
     else:
         OPS_D = OPS
 
-    def do_op(R, p, op, tag):
-        """execute one generator call on state p; returns its observable output (checked for range)"""
+    PRE = [(-1, 1), ((1 << 2048) - 1, None), (-(int("5a" * 200, 16)), None)]
+
+    def do_op(R, p, op, tag, pre=0):
+        """execute one generator call on state p; returns its observable output (checked for range).
+        `pre` selects what the destination holds before the call: outputs must not depend on it."""
         e = env()
         k, a = op
         z = e["z"][0]
+        if k in ("zub", "zrr", "zum"):
+            z.set(PRE[pre][0], alloc=PRE[pre][1])
         if k == "zub":
-            z.set(-1, alloc=1)
             f_zub(z.p, p, a)
             v = z.get()
             if not (0 <= v < (1 << a)) or z.wf():
                 R.fail("mpz_urandomb", "%s: n=%d gave %x (%s)" % (tag, a, v, z.wf()))
             return v
         if k == "zrr":
-            z.set(-1, alloc=1)
             f_zrr(z.p, p, a)
             v = z.get()
             if not (0 <= v < (1 << a) or (a == 0 and v == 0)) or z.wf():
@@ -115,7 +118,6 @@ def spaces(tier, variant, seed):
         if k == "zum":
             z1 = e["z"][1]
             z1.set(a)
-            z.set(-1, alloc=1)
             f_zum(z.p, p, z1.p)
             v = z.get()
             if not (0 <= v < a) or z.wf() or z1.get() != a:
@@ -136,6 +138,8 @@ def spaces(tier, variant, seed):
         if k == "nub":
             nl_ = (a + 63) // 64
             A.reset(nl_ + 2 * G)
+            if pre:
+                A.put(G, al.ones(nl_) if pre == 1 else 0, nl_)
             f_nub(A.addr(G), p, a)
             v = A.get(G, nl_)
             if v >> a or not A.untouched(nl_ + 2 * G, [(G, nl_)]):
@@ -200,12 +204,12 @@ def spaces(tier, variant, seed):
             f_init_set(addressof(c), p1)
             copies.append((pos, c))
             outs1.append(do_op(R, p1, OPS_D[oi], tag))
-        outs2 = [do_op(R, p2, OPS_D[oi], tag) for oi in seq]
+        outs2 = [do_op(R, p2, OPS_D[oi], tag, pre=1) for oi in seq]
         if outs1 != outs2:
             R.fail("determinism", "%s: two states seeded alike gave different outputs %s vs %s" % (tag, outs1, outs2))
         for pos, c in copies:
             pc = addressof(c)
-            oc = [do_op(R, pc, OPS_D[oi], tag) for oi in seq[pos:]]
+            oc = [do_op(R, pc, OPS_D[oi], tag, pre=2) for oi in seq[pos:]]
             if oc != outs1[pos:]:
                 R.fail("gmp_randinit_set", "%s: copy taken before call %d continued with %s, original gave %s" % (tag, pos, oc, outs1[pos:]))
             f_clear(pc)
@@ -224,6 +228,50 @@ def spaces(tier, variant, seed):
         hb = hb[::5]
     sp.append(Space("histories", hb, hi_cases, hi_one,
                     "every history of <= %d calls over %d operations x %d generator kinds x %d seeds: range of every output, twin-state determinism, randinit_set copy at every position" % (D, len(OPS_D), len(KINDS), len(SEEDS))))
+
+    # copies and twins must stay in step over draws longer than the generator's internal buffer (624 words for MT)
+    def ld_cases(blk):
+        ki, si = blk
+        for adv in (0, 1, 100, 495, 623, 624, 625, 1000):
+            for chunk in (32, 64, 1000, 19968, 65, 130):
+                yield (ki, si, adv, chunk)
+
+    def ld_one(case, R):
+        ki, si, adv, chunk = case
+        kind, sd = KINDS[ki], SEEDS[si]
+        tag = "%s seed %x advance %d words chunk %d bits" % (kind, sd, adv, chunk)
+        st1, p1 = mkstate(kind, sd)
+        st2, p2 = mkstate(kind, sd)
+        e = env()
+        z = e["z"][0]
+        for _ in range(adv):
+            f_ub_ui(p1, 32)
+            f_ub_ui(p2, 32)
+        c = (ctypes.c_char * RSZ)()
+        f_init_set(addressof(c), p1)
+        pc = addressof(c)
+        total = 0
+        i = 0
+        while total < 64 * 1400:
+            a = do_op(R, p1, ("zub", chunk), tag, pre=0)
+            b = do_op(R, p2, ("zub", chunk), tag, pre=1)
+            d = do_op(R, pc, ("zub", chunk), tag, pre=2)
+            if a != b:
+                R.fail("determinism", "%s: same-seeded states differ at draw %d (%d bits after the start)" % (tag, i, total))
+                break
+            if a != d:
+                R.fail("gmp_randinit_set", "%s: the copy differs from the original at draw %d, %d bits after the copy" % (tag, i, total))
+                break
+            total += chunk
+            i += 1
+        f_clear(p1)
+        f_clear(p2)
+        f_clear(pc)
+        R.count("states", 3 * i)
+        return (ki, si, adv, chunk)
+
+    sp.append(Space("long_draws_after_copy", [(ki, si) for ki in range(len(KINDS)) for si in (0, 3)], ld_cases, ld_one,
+                    "state advanced by 0..1000 words, copied, then original, same-seeded twin and copy draw 90 kbit in chunks of 32/64/65/130/1000/19968 bits into destinations with different previous contents: identical streams"))
 
     # single-call range checks over the full op alphabet
     def r1_cases(blk):
@@ -312,7 +360,7 @@ def spaces(tier, variant, seed):
     def un_cases(blk):
         ki = blk
         for si in range(len(SEEDS)):
-            for req in (1, 8, 32, 64, 100):
+            for req in (1, 8, 32, 64, 70, 100, 130):
                 yield (ki, si, req)
 
     def un_one(case, R):
@@ -327,6 +375,7 @@ def spaces(tier, variant, seed):
             if req <= 64:
                 v = f_ub_ui(p, req)
             else:
+                z.set(PRE[_ % 3][0], alloc=PRE[_ % 3][1])
                 f_zub(z.p, p, req)
                 v = z.get()
             for b in range(req):
@@ -346,5 +395,5 @@ def spaces(tier, variant, seed):
 
     kinds_big = [i for i, k in enumerate(KINDS) if k[0] in ("mt", "default", "lcs") or (k[0] == "lc" and k[3] >= 64)]
     sp.append(Space("sample_uniformity", kinds_big, un_cases, un_one,
-                    "MT / default / lc_2exp_size 32,64,128 / 64- and 100-bit lc_2exp: 2^13 draws of 1,8,32,64,100 bits per seed: every bit position within +-12.5%, every top-4-bit bucket within +-40% (non-exhaustive by nature)"))
+                    "MT / default / lc_2exp_size 32,64,128 / 64- and 100-bit lc_2exp: 2^13 draws of 1,8,32,64,70,100,130 bits per seed (destination contents varied): every bit position within +-12.5%, every top-4-bit bucket within +-40% (non-exhaustive by nature)"))
     return sp
